@@ -38,6 +38,7 @@ def strategy(tier):
         for t in spec['transitions']:
             if draw(st.floats(0, 1)) < 0.8:
                 t['tguard'] = [draw(st.sampled_from(['after', 'idle'])), draw(st.sampled_from(DS))]
+                t['plain'] = draw(st.floats(0, 1)) < 0.35
             if draw(st.floats(0, 1)) < 0.3:
                 t['tpost'] = draw(st.sampled_from(DS))
             if draw(st.floats(0, 1)) < 0.2:
@@ -60,12 +61,19 @@ def strategy(tier):
             else:
                 ops.append(['step'])
         ops.append(['step'])
-        return {'spec': spec, 'ops': ops}
+        # shadow: a second interpreter over the same Statechart object is stepped in between, on
+        # its own clock; it must not influence the first one
+        return {'spec': spec, 'ops': ops, 'shadow': draw(st.booleans())}
     return cases()
 
 
 def render(spec):
     spec = probes.instrument(spec, guards='time')
+    for t in spec['transitions']:
+        # plain time guards: several transitions then carry textually identical guards whose
+        # values differ because after()/idle() are relative to each source state
+        if t.get('tguard') and t.get('plain'):
+            t['guard'] = '%s(%r)' % (t['tguard'][0], t['tguard'][1])
     for t in spec['transitions']:
         if t.get('tpost') is not None:
             d = t['tpost']
@@ -95,6 +103,23 @@ def oracle(case):
     box['d'] = d
     started = []
     d.interp.attach(lambda ev: started.append(ev.time) if ev.name == 'step started' else None)
+    shadow = None
+    if case.get('shadow'):
+        from sismic.interpreter import Interpreter
+        shadow = Interpreter(d.sc, ignore_contract=False,
+                             initial_context=probes.new_context({'tick': lambda dt: None}))
+        labels['runs with a shadow interpreter on the same statechart'] = 1
+
+    def shadow_step(k):
+        if shadow is None:
+            return
+        try:
+            shadow.clock.time += 0.375
+            if k % 2 == 0:
+                shadow.queue('e%d' % (k % 4 // 2))
+            shadow.execute_once()
+        except Exception:
+            pass     # (non-determinism etc. in the shadow run is irrelevant here)
     entered_at, fired_at = {}, {}
     reentered = set()
     nontrivial = False
@@ -116,6 +141,7 @@ def oracle(case):
                 bad('interpreter-time-moved-between-steps', i, time=d.interp.time, last=last_T)
                 break
         else:
+            shadow_step(i)
             T = d.interp.clock.time
             C = set(d.interp.configuration)
             E = d.qm.head(T)
